@@ -53,3 +53,32 @@ Contract(
     modifies=[],
     props=("C06",),
 )
+
+
+def _corpus():
+    codes = [-32701, -32700, -32699, -32600, -32001, -32000, -31999, 0, 1, 1234, -1, -32000.0, -32000.5, -31999.5,
+             True, None, "abc", "-32000", [], {}]
+    errors = [None, "", 0, False, [], {}, "boom", "some code here", 5, True, 1.5, ["code"], ["x", 1],
+              {"reason": "x"}, {"message": "m"}, {"trace": "t"}, {"a": 1, "b": 2}, {"data": 1, "message": "m"}]
+    for c in codes:
+        errors += [{"code": c}, {"code": c, "message": "m"}, {"code": c, "trace": "t"},
+                   {"code": c, "message": "m", "data": {"k": [1]}}, {"code": c, "message": None, "trace": "t", "data": 0}]
+    envelopes = [{}, {"jsonrpc": "2.0"}, {"jsonrpc": "2.0", "id": 1}, {"id": "x"}]
+    results = ["<absent>", None, 0, False, "", [], {}, 5, "r", [1, 2], {"k": None}]
+    for env in envelopes:
+        for e in errors + ["<absent>"]:
+            for r in (results if e in (None, "<absent>", "", 0, False) or e == [] or e == {} else ["<absent>", None]):
+                d = dict(env)
+                if e != "<absent>":
+                    d["error"] = e
+                if r != "<absent>":
+                    d["result"] = r
+                yield {"result": d}
+    for v in [None, "", 0, False, [], {}]:
+        yield {"result": v}
+
+
+REGISTRY_C06 = __import__("pyvc.contracts", fromlist=["REGISTRY"]).REGISTRY
+REGISTRY_C06["jsonrpclib.jsonrpc.check_for_errors"].corpus = _corpus
+REGISTRY_C06["jsonrpclib.jsonrpc.check_for_errors"].corpus_bound = \
+    "4 envelopes x (18 error shapes + 20 codes x 5 code-bearing shapes) x result values"
